@@ -165,7 +165,7 @@ func c02Step(t *rapid.T) kit.Argv {
 			return kit.A("PERSIST", k)
 		}
 	case 19:
-		return kit.A("DEL", k)
+		return goneStep(t, k)
 	default:
 		return kit.A(cn("SET"), k) // wrong arity
 	}
@@ -183,6 +183,10 @@ func c02Gen(t *rapid.T) SeqCase {
 	var steps []kit.Argv
 	n := rapid.IntRange(8, 50).Draw(t, "steps")
 	for i := 0; i < n; i++ {
+		if rapid.IntRange(0, 11).Draw(t, "gone") == 0 {
+			steps = append(steps, afterGone(t, c02Keys, c02Step)...)
+			continue
+		}
 		steps = append(steps, c02Step(t))
 	}
 	return SeqCase{Steps: steps}
